@@ -4,7 +4,7 @@ HOOK_COMMITS = []
 ENGINES = [
     {"name": "vcore", "path": "/verif/mc/vcore", "serves_properties": ["*"],
      "kind_free_text": "parent/worker process pool, deterministic sliced enumeration, known-findings matcher, determinism gate (re-execution of each new violation), evidence + replay writer"},
-    {"name": "BYTES/INPUT", "path": "/verif/mc/checks/src/bin", "serves_properties": ["C27"],
+    {"name": "BYTES/INPUT", "path": "/verif/mc/checks/src/bin", "serves_properties": ["C27", "C30"],
      "kind_free_text": "bounded-exhaustive input enumeration of real codec functions on guard-paged buffers"},
 ]
 
@@ -16,5 +16,11 @@ CHECKS = {
         "technique": "bounded exhaustive input enumeration (every value of a dense range + boundary families; every short byte string) on the real codec",
         "text": "Every u64 in [0,2^22) (thorough: [0,2^29)), a stride sweep up to 2^32+2^16, all 2^k±d and one-byte sweeps of the 9-byte class are encoded with the real encode_varint into a guard-paged buffer of exactly varint_len bytes and decoded back; every byte string of length ≤3 and a reduced-alphabet family of length 4..9 is decoded at a guard page. Exhaustive within those sets, so any off-by-one in a class boundary, length function or bounds check is found; the 2^64 'by proof' clause is outside this family.",
         "note": "Trusts the independent restatement of the format table in the check (spec_len) and the MMU guard page for out-of-bounds detection; values above 2^32+2^16 are covered by families, not densely.",
+    },
+    "C30": {
+        "bin": "c30", "engine": "BYTES/INPUT", "level": "exploration",
+        "technique": "bounded exhaustive input enumeration: every key-set shape (composition into equal-prefix runs) x every stored/gap probe against plain binary search",
+        "text": "Leaf pages are built with the real LeafNodeMut API for every composition of n<=15 (thorough n<=20) keys into runs sharing a 4-byte prefix, in three key families (long keys, keys shorter than 4 bytes with zero-padded prefixes, high-bit prefixes), plus run families up to 400 keys; every stored key and every neighbouring gap key is probed through find_key and through both narrowing functions (AVX2 and scalar). Exhaustive over those shapes, so any batch-boundary or equal-prefix narrowing error is found; this is how the AVX2 defect fixed in 534a3d5 was found.",
+        "note": "Oracle is slice::binary_search over the harness's own key list. The no-AVX2 dispatch cannot be forced on this CPU: the scalar narrowing function is checked directly instead. NEON path not reachable on x86_64.",
     },
 }
